@@ -271,6 +271,37 @@ pub fn check_full_scan(d: &Driver, s: SeqNo, what: &str, out: &mut Vec<Violation
             }
         }
     }
+    // prefix scans go through their own entry point (BlobTree::prefix is a separate function)
+    {
+        let mut prefixes: Vec<Vec<u8>> = vec![vec![]];
+        for k in &d.cfg.keys {
+            if d.cfg.keys.len() <= 8 && !prefixes.contains(&k[..1].to_vec()) {
+                prefixes.push(k[..1].to_vec());
+            }
+        }
+        for p in prefixes {
+            match collect_fwd(t.prefix(p.clone(), s, None)) {
+                Err(e) => out.push(v(format!("prefix-err@{what}"), format!("prefix({}) at {s} Err {e}", hex(&p)))),
+                Ok(got) => {
+                    let model_p: BTreeMap<Vec<u8>, Expect> = model.iter().filter(|(k, _)| k.starts_with(&p)).map(|(k, e)| (k.clone(), e.clone())).collect();
+                    let got_map: BTreeMap<&Vec<u8>, &Vec<u8>> = got.iter().map(|(k, v)| (k, v)).collect();
+                    let mut all: BTreeSet<&Vec<u8>> = got_map.keys().copied().collect();
+                    all.extend(model_p.keys());
+                    for k in all {
+                        let g = got_map.get(k).map(|x| (*x).clone());
+                        let e = model_p.get(k).cloned().unwrap_or(Expect::Exact(None));
+                        if !e.admits(&g) {
+                            out.push(v(
+                                format!("prefix-mismatch@{what}"),
+                                format!("prefix({}) at {s}: key {} -> {} but model says {}", hex(&p), hex(k), show_opt(&g), exp_show(&e)),
+                            ));
+                            break;
+                        }
+                    }
+                }
+            }
+        }
+    }
     match scan_rev(t, s) {
         Err(e) => out.push(v(
             format!("scan-err-rev@{what}"),
